@@ -251,6 +251,7 @@ impl<'a> Exec<'a> {
             let limit = world.limit;
             handles.push(std::thread::spawn(move || {
                 TID.with(|t| t.set(Some(i)));
+                crate::sut::CLOCK_TID.with(|t| t.set(Some(i)));
                 let h = BinaryHandler::new(memc);
                 for f in &prog {
                     let r = std::panic::catch_unwind(std::panic::AssertUnwindSafe(|| run_one(&h, limit, f)));
@@ -275,6 +276,17 @@ impl<'a> Exec<'a> {
             self.hung = Some(format!("the call granted to thread {} (after calls {:?}) did not return within 4 s", i, self.gate.mu.lock().unwrap().log));
         }
         r
+    }
+    /// the same, but the clock reads of this call return the value from before the last tick
+    pub fn grant_stale(&mut self, i: usize) -> Option<bool> {
+        crate::sut::STALE_TID.store(i as i64, std::sync::atomic::Ordering::SeqCst);
+        let r = self.grant(i);
+        // the thread is parked again (or done) when grant returns
+        crate::sut::STALE_TID.store(-1, std::sync::atomic::Ordering::SeqCst);
+        r
+    }
+    pub fn tick(&mut self) {
+        self.world.clock.0.fetch_add(1, std::sync::atomic::Ordering::SeqCst);
     }
     pub fn completed(&self, i: usize) -> usize {
         self.results.lock().unwrap()[i].len()
@@ -333,15 +345,40 @@ impl<'a> Exec<'a> {
     }
 }
 
+/// one step of a schedule: thread i makes its next call; the one-second clock ticks; thread i makes its next call with
+/// the clock reading from before the last tick (written `i~`)
+#[derive(Clone, Copy, PartialEq, Debug)]
+pub enum Tok {
+    Grant(usize),
+    Tick,
+    Stale(usize),
+}
+
+pub fn fmt_toks(t: &[Tok]) -> String {
+    t.iter().map(|x| match x { Tok::Grant(i) => i.to_string(), Tok::Tick => "T".to_string(), Tok::Stale(i) => format!("{}~", i) }).collect::<Vec<_>>().join(" ")
+}
+
+pub fn parse_toks(ids: &[&str]) -> Vec<Tok> {
+    ids.iter().filter_map(|x| {
+        if *x == "T" { Some(Tok::Tick) } else if let Some(p) = x.strip_suffix('~') { p.parse().ok().map(Tok::Stale) } else { x.parse().ok().map(Tok::Grant) }
+    }).collect()
+}
+
 /// run `programs` (one list of request frames per thread) under `sched` (+ completion), on top of `world`
-pub fn run_schedule(world: &World, programs: &[Vec<Vec<u8>>], sched: &[usize]) -> Outcome {
+pub fn run_schedule(world: &World, programs: &[Vec<Vec<u8>>], sched: &[Tok]) -> Outcome {
     let mut ex = Exec::start(world, programs);
-    for i in sched {
-        if *i >= ex.n {
-            continue;
-        }
-        if ex.grant(*i).is_none() {
-            break;
+    for t in sched {
+        match t {
+            Tok::Tick => ex.tick(),
+            Tok::Grant(i) | Tok::Stale(i) => {
+                if *i >= ex.n {
+                    continue;
+                }
+                let r = if matches!(t, Tok::Stale(_)) { ex.grant_stale(*i) } else { ex.grant(*i) };
+                if r.is_none() {
+                    break;
+                }
+            }
         }
     }
     ex.finish()
@@ -535,13 +572,17 @@ pub fn windows(steps: &[(usize, &'static str)], programs: &[Vec<Vec<u8>>]) -> Ve
 
 /// is there a one-at-a-time order of the commands (respecting each thread's own order) that gives the same
 /// results and the same final content on the real code run sequentially?
-pub fn linearizable(case: &Case, replay_setup: &dyn Fn() -> World, outcome: &Outcome) -> bool {
-    reference_set(case, replay_setup).contains(&(outcome.results.clone(), strip_ts(&outcome.dump)))
+pub fn linearizable(case: &Case, replay_setup: &dyn Fn() -> World, outcome: &Outcome, ticked: bool) -> bool {
+    reference_set(case, replay_setup, ticked).contains(&(outcome.results.clone(), strip_ts(&outcome.dump)))
 }
 
 /// every (results, content) a legal one-at-a-time execution of the case can end in — it depends on the case only, so the
 /// suite computes it once per case and looks every schedule's outcome up
-pub fn reference_set(case: &Case, replay_setup: &dyn Fn() -> World) -> std::collections::HashSet<(Vec<Vec<String>>, String)> {
+///
+/// `ticked`: the concurrent phase contained one tick of the clock. A command that overlaps the tick may take effect before
+/// or after it, so the tick is one more unit of the order (a client of its own); every command runs at the clock value of
+/// its place.
+pub fn reference_set(case: &Case, replay_setup: &dyn Fn() -> World, ticked: bool) -> std::collections::HashSet<(Vec<Vec<String>>, String)> {
     let mut set: std::collections::HashSet<(Vec<Vec<String>>, String)> = Default::default();
     // one-at-a-time orders of the commands (each thread's own order respected), run on the real code through the
     // same gate with each command's calls contiguous. Looseness of the specification (DESIGN.md section 11):
@@ -554,6 +595,7 @@ pub fn reference_set(case: &Case, replay_setup: &dyn Fn() -> World) -> std::coll
         Whole,
         First,
         Rest,
+        Tick,
     }
     let n = case.programs.len();
     let cmds: Vec<(usize, usize)> = case.programs.iter().enumerate().flat_map(|(t, p)| (0..p.len()).map(move |j| (t, j))).collect();
@@ -579,6 +621,10 @@ pub fn reference_set(case: &Case, replay_setup: &dyn Fn() -> World) -> std::coll
                 v
             })
             .collect();
+        let mut units = units;
+        if ticked {
+            units.push(vec![Unit::Tick]); // pseudo-client n
+        }
         let counts: Vec<usize> = units.iter().map(|u| u.len()).collect();
         let mut orders: Vec<Vec<usize>> = vec![];
         fn perms(counts: &[usize], idx: &mut Vec<usize>, cur: &mut Vec<usize>, out: &mut Vec<Vec<usize>>, total: usize) {
@@ -596,10 +642,11 @@ pub fn reference_set(case: &Case, replay_setup: &dyn Fn() -> World) -> std::coll
                 }
             }
         }
-        perms(&counts, &mut vec![0; n], &mut vec![], &mut orders, counts.iter().sum());
+        let nu = units.len();
+        perms(&counts, &mut vec![0; nu], &mut vec![], &mut orders, counts.iter().sum());
         for order in &orders {
             // a Rest directly behind its First is the unsplit command: covered by the mask without that bit
-            let mut pos = vec![0usize; n];
+            let mut pos = vec![0usize; nu];
             let mut redundant = false;
             let mut prev: Option<(usize, Unit)> = None;
             for t in order {
@@ -616,12 +663,13 @@ pub fn reference_set(case: &Case, replay_setup: &dyn Fn() -> World) -> std::coll
             }
             let w = replay_setup();
             let mut ex = Exec::start(&w, &case.programs);
-            let mut pos = vec![0usize; n];
+            let mut pos = vec![0usize; nu];
             let mut legal = true;
             for t in order {
                 let u = units[*t][pos[*t]];
                 pos[*t] += 1;
                 match u {
+                    Unit::Tick => ex.tick(),
                     Unit::Whole => ex.run_command(*t),
                     Unit::First => {
                         let before = ex.completed(*t);
@@ -745,7 +793,7 @@ impl SchedRunner {
                 ("ok".into(), None)
             }
             [sc, ids @ ..] if *sc == "sched" => {
-                let sched: Vec<usize> = ids.iter().filter_map(|x| x.parse().ok()).collect();
+                let sched: Vec<Tok> = parse_toks(ids);
                 let o = run_schedule(&self.world, &self.programs, &sched);
                 (format!("res {} | {}", fmt_results(&o.results), o.dump), Some(o))
             }
@@ -778,8 +826,28 @@ pub fn run_suite(profile: &str, seed: u64, count: u64, per_case: usize, mut trac
         let counts: Vec<usize> = case.programs.iter().map(|p| p.len() * 3).collect();
         let scheds = interleavings(&counts, per_case, &mut rng);
         let setup0 = case.setup.clone();
-        let refs = reference_set(&case, &|| apply_setup(&setup0));
+        let refs = reference_set(&case, &|| apply_setup(&setup0), false);
+        let mut refs_ticked: Option<std::collections::HashSet<(Vec<Vec<String>>, String)>> = None;
         for sched in scheds {
+            // one schedule in four: the clock ticks somewhere inside the phase, and (half of those) the first call granted to
+            // some client after the tick still carries the clock reading from before it
+            let mut sched: Vec<Tok> = sched.into_iter().map(Tok::Grant).collect();
+            let mut ticked = false;
+            if matches!(profile, "C03" | "C05" | "C02" | "C06") && !sched.is_empty() && rng.chance(1, 4) {
+                let p = rng.below(sched.len() as u64 + 1) as usize;
+                sched.insert(p, Tok::Tick);
+                ticked = true;
+                if rng.chance(1, 2) {
+                    let who = rng.below(case.programs.len() as u64) as usize;
+                    if let Some(q) = sched.iter().enumerate().position(|(ix, t)| ix > p && *t == Tok::Grant(who)) {
+                        sched[q] = Tok::Stale(who);
+                    }
+                }
+                if refs_ticked.is_none() {
+                    refs_ticked = Some(reference_set(&case, &|| apply_setup(&setup0), true));
+                }
+            }
+            let refs = if ticked { refs_ticked.as_ref().unwrap() } else { &refs };
             st.schedules += 1;
             let start = ops.len();
             if let Some(f) = &mut trace {
@@ -791,7 +859,7 @@ pub fn run_suite(profile: &str, seed: u64, count: u64, per_case: usize, mut trac
                 for (i, p) in case.programs.iter().enumerate() {
                     let _ = writeln!(f, "thread {} {}", i, hexes(p));
                 }
-                let _ = writeln!(f, "sched {}", sched.iter().map(|x| x.to_string()).collect::<Vec<_>>().join(" "));
+                let _ = writeln!(f, "sched {}", fmt_toks(&sched));
                 let _ = f.flush();
             }
             let mut r = SchedRunner::new();
@@ -806,7 +874,7 @@ pub fn run_suite(profile: &str, seed: u64, count: u64, per_case: usize, mut trac
                 ops.push(l);
                 outs.push(o);
             }
-            let l = format!("sched {}", sched.iter().map(|x| x.to_string()).collect::<Vec<_>>().join(" "));
+            let l = format!("sched {}", fmt_toks(&sched));
             let (o, outcome) = r.exec(&l);
             ops.push(l);
             outs.push(o.clone());
@@ -962,7 +1030,7 @@ pub fn run_policy_suite(seed: u64, count: u64, per_case: usize, mut trace: Optio
                 w.req(f);
             }
             w.clock.0.store(10, std::sync::atomic::Ordering::SeqCst);
-            let o = run_schedule(&w, &programs, &sched);
+            let o = run_schedule(&w, &programs, &sched.iter().map(|i| Tok::Grant(*i)).collect::<Vec<_>>());
             ops.push(desc);
             outs.push("ok".into());
             let end = ops.len();
